@@ -3,7 +3,7 @@ use std::collections::{BTreeSet, HashMap, HashSet};
 use std::iter::FromIterator;
 
 use crate::bn::BigNumber;
-use crate::constants::{ITERATION, LARGE_E_START_VALUE};
+use crate::constants::{ITERATION, LARGE_ETILDE, LARGE_E_START_VALUE};
 use crate::error::Result as ClResult;
 use crate::hash::hash_list_to_bignum;
 use crate::helpers::*;
@@ -491,6 +491,18 @@ impl ProofVerifier {
             .difference(&sub_proof_request.revealed_attrs)
             .cloned()
             .collect::<HashSet<String>>();
+
+        // An honest response for e is e_tilde + c * (e - 2^LARGE_E_START) with
+        // e_tilde < 2^LARGE_ETILDE and c * e' < 2^(256 + LARGE_E_END_RANGE), i.e. a
+        // non-negative number of at most LARGE_ETILDE + 1 bits. Without this bound e is not
+        // tied to its prescribed interval and a proof can be assembled from the public key
+        // alone (e.g. e = c * (1 - 2^LARGE_E_START) with A' = Z / prod R_i^m_i).
+        if proof.e.is_negative() || proof.e.num_bits()? as usize > LARGE_ETILDE + 1 {
+            return Err(err_msg!(
+                ProofRejected,
+                "Response for e is outside of the allowed range"
+            ));
+        }
 
         let t1: BigNumber = calc_teq(
             p_pub_key,
